@@ -144,7 +144,9 @@ def gen_anchors():
 
 # --------------------------------------------------------------------------- known-finding classification
 def classify(case, detail):
-    """Narrow keys for the genuine defects this property found (matched against KNOWN_FINDINGS.txt)."""
+    """Narrow keys for the genuine defects this property found (matched against KNOWN_FINDINGS.txt).  The driver
+    emits no [cause: ...] tag any more: every round-trip defect that had one is repaired (only the thorough-tier
+    stack-overflow probe still reports under a key, passed explicitly)."""
     m = re.search(r"\[cause: ([a-z0-9-]+)\]", detail)
     if m:
         return m.group(1)
@@ -196,10 +198,12 @@ def run(chk, only_corpus=False):
         "roundtrip_partial whose lexical hypothesis lex_print_ok_b (lexing the printed bytes yields the token-level print) "
         "is NOT proved in general; the driver evaluates it on every accepted executable document and reports "
         "corr:C05/lex-print if it fails although all strings are re-quotable",
-        "attribution of a round-trip failure of the implementation to a listed finding is by syntactic triggers on the "
-        "implementation's own tree (ocaml/c05/driver.ml rt_cause: NUL inside a string, a string that is not re-quotable "
-        "per the extracted string_stable_b / description_stable_b, a body-less definition followed by another definition, "
-        "a line-continued single-line description); anything else that fails to round-trip is a VIOLATION",
+        "no round-trip failure of the implementation is attributed to a listed finding any more (the four causes "
+        "rt-nul-in-string, rt-block-string-edge, rt-sdl-empty-body-dropped, rt-string-line-continuation are repaired; their "
+        "inputs are regression cases in corpus/C05); the driver only adds a diagnostic when a stored string is not re-quotable "
+        "per the extracted string_stable_b / description_stable_b",
+        "the pre-repair lexer and printer (coq/C05/PreFix.v, module V0) are kept for the historical refutations only; they "
+        "are not extracted and not tied to any code",
         "block-string descriptions are compared by BlockStringValue (harness/gqldump.BlockStringValue, written for this "
         "check) because the printer re-indents them by design",
         "goroutine stack exhaustion at about 3e6 nesting levels (lists, list types, selection sets) is outside every "
